@@ -67,3 +67,15 @@ Lemma ex2_tokens :
   Forall (fun c => is_peek c = false) [RRead 64 true] /\ quiescent ex2_after = true /\ hsem (g_sh ex2_after) = Some 1 /\
   length (g_pub ex2_after) = 2%nat /\ length (g_got ex2_after) = 1%nat.
 Proof. split; [repeat constructor|]. vm_compute. repeat split; reflexivity. Qed.
+
+(* the IPC server pattern: peek, then reclaim.  After the successful peek the reader is between calls holding the
+   peeked chunk: 2 chunks unread, 1 token in the semaphore, 1 token held - the bound of C01_tokens_peek_reclaim is tight *)
+Definition ex3_state : state :=
+  exec (times 60 TW ++ times 11 TR)
+       (init ex_ring [WWrite [1; 2; 3; 4; 5]; WWrite [9; 9]] [RPeek true; RReclaim; RRead 64 true]).
+
+Lemma ex3_ok :
+  wf_ring ex_ring /\ hsem ex_ring = Some 0 /\
+  r_pc (g_r ex3_state) = RCall /\ r_have (g_r ex3_state) = true /\ hsem (g_sh ex3_state) = Some 1 /\
+  length (g_pub ex3_state) = 2%nat /\ length (g_got ex3_state) = 0%nat.
+Proof. split; [exact ex_ring_wf|]. vm_compute. repeat split; reflexivity. Qed.
